@@ -334,6 +334,70 @@ func runNet(c *vu.Case) {
 			w.mu.Lock()
 			out = fmt.Sprintf("first=%s waiters=[%s] then=%s opened=%d live=%d maxlive=%d", show(first), strings.Join(ws, ","), show(then), w.opened-before, w.liveCount(p), w.maxLive[p])
 			w.mu.Unlock()
+		case "abandon": // abandon p=<peer> first=<id> kind=<msg|req> then=<id>
+			// a request holds the peer's sender (its NewStream is held back); a message or request queued behind it is
+			// abandoned by its caller (context cancelled while it waits for the sender); another request follows; only then
+			// does the first one get its stream.  Exchanges with one peer stay serialized and every reply is its request's.
+			w.ms.OnDisconnect(ctx, nPeer(p))
+			synctest.Wait()
+			gate := make(chan struct{})
+			w.mu.Lock()
+			w.gate = gate
+			delete(w.behs, p)
+			delete(w.opens, p)
+			w.maxLive[p] = w.liveCount(p)
+			w.mu.Unlock()
+			type one struct {
+				id   int
+				resp *pb.Message
+				err  error
+			}
+			show := func(o *one) string {
+				if o.err != nil {
+					return nErr(o.err)
+				}
+				return replyID(o.resp)
+			}
+			var wg sync.WaitGroup
+			fid, _ := strconv.Atoi(a["first"])
+			first := &one{id: fid}
+			wg.Add(1)
+			go func() {
+				defer wg.Done()
+				first.resp, first.err = w.ms.SendRequest(ctx, nPeer(p), reqMsg(first.id))
+			}()
+			synctest.Wait() // inside NewStream, holding the sender
+			cctx, cancel := context.WithCancel(ctx)
+			var aerr error
+			wg.Add(1)
+			go func() {
+				defer wg.Done()
+				if a["kind"] == "msg" {
+					aerr = w.ms.SendMessage(cctx, nPeer(p), reqMsg(999999))
+				} else {
+					_, aerr = w.ms.SendRequest(cctx, nPeer(p), reqMsg(999999))
+				}
+			}()
+			synctest.Wait() // queued behind the first request
+			cancel()
+			synctest.Wait()
+			tid, _ := strconv.Atoi(a["then"])
+			then := &one{id: tid}
+			wg.Add(1)
+			go func() {
+				defer wg.Done()
+				then.resp, then.err = w.ms.SendRequest(ctx, nPeer(p), reqMsg(then.id))
+			}()
+			synctest.Wait()
+			close(gate)
+			w.mu.Lock()
+			w.gate = nil
+			w.mu.Unlock()
+			wg.Wait()
+			synctest.Wait()
+			w.mu.Lock()
+			out = fmt.Sprintf("first=%s abandoned=%s then=%s opened=%d live=%d maxlive=%d", show(first), nErr(aerr), show(then), w.opened-before, w.liveCount(p), w.maxLive[p])
+			w.mu.Unlock()
 		case "par": // par reqs=<p>:<id>,<p>:<id>,...  — concurrent requests, NewStream held back until all are under way
 			type one struct {
 				p, id int
@@ -440,6 +504,9 @@ func TestVerifC11(t *testing.T) {
 					c.In = append(c.In, fmt.Sprintf("reqpre p=%d id=%d", p, id))
 				case x < 17:
 					c.In = append(c.In, fmt.Sprintf("disconnect p=%d", p))
+				case x < 18 && r.Bool():
+					id += 2
+					c.In = append(c.In, fmt.Sprintf("abandon p=%d first=%d kind=%s then=%d", p, id-1, []string{"msg", "req"}[r.Intn(2)], id))
 				case x < 18:
 					var ws []string
 					first := id + 1
